@@ -46,18 +46,23 @@ nodes:
         case "toself": _.out({to: _.props ? _.props.mid : "a", do: "ok"}); return _.bindings;
         case "tonobody": _.out({to: "nobody", do: "ok"}); _.out({to: 7}); _.out(null); _.out(7); return _.bindings;
         case "delperm": delete _.bindings["k!"]; return _.bindings;
+        case "goerr": _.bindings.goerr = true; return _.bindings;
+        case "goerr7": _.bindings.goerr = true; _.bindings.error = 7; _.bindings.lastNode = {}; return _.bindings;
         }
         _.bindings.n = (_.bindings.n || 0) + 1;
         return _.bindings;
     branching:
       branches:
+      - pattern: {"goerr": true}
+        target: error
       - target: start
 `
 
 var c07SpecFiles = map[string]string{
 	"actor":      "name: actor" + c07Actor,
 	"params":     "name: params\nparamspecs:\n  color:\n    primitiveType: string\n    default: blue\n  sizes:\n    primitiveType: number\n    isArray: true\n    default: [1, null]\n  nothing:\n    primitiveType: string\n" + c07Actor,
-	"handled":    "name: handled\nactionErrorNode: oops\n" + c07Actor + "  oops:\n    branching:\n      type: message\n      branches:\n      - target: start\n",
+	"handled":    "name: handled\nactionerrornode: oops\n" + c07Actor + "  oops:\n    branching:\n      type: message\n      branches:\n      - target: start\n",
+	"selferr":    "name: selferr\nactionerrornode: error\n" + c07Actor + "  error:\n    branching:\n      type: message\n      branches:\n      - target: start\n",
 	"broken":     "name: broken\nnodes:\n  start: [\n",
 	"badinterp":  "name: badinterp\nnodes:\n  start:\n    action:\n      interpreter: cobol\n      source: x\n",
 	"nullnode":   "name: nullnode\nnodes:\n  start:\n  other:\n    branching:\n      branches:\n      - \n",
@@ -180,10 +185,10 @@ func C07mcrew(c *vh.Ctx) {
 		}
 		return
 	}
-	specs := []string{"actor", "params", "handled", "broken", "badinterp", "nullnode", "badpattern", "empty", "scalar", "missing"}
+	specs := []string{"actor", "params", "handled", "selferr", "broken", "badinterp", "nullnode", "badpattern", "empty", "scalar", "missing"}
 	states := []string{`{"node":"start","bs":{}}`, "", `null`, `{"node":"start"}`, `{"node":"start","bs":null}`, `{"bs":{}}`, `{"node":"nowhere","bs":{}}`, `{"node":"","bs":{}}`,
-		`{"node":"start","bs":{"k!":{"deep":[1,{"x":null}]},"n":"text"}}`, `{"node":"act","bs":{}}`, `{"node":"act"}`, `{"node":"error","bs":{"error":"earlier","lastBindings":{"lastBindings":{}}}}`}
-	behaviours := []string{"ok", "throw", "throwobj", "null", "scalar", "array", "nan", "fn", "emitfn", "emitnan", "cyclic", "toself", "tonobody", "delperm"}
+		`{"node":"start","bs":{"k!":{"deep":[1,{"x":null}]},"n":"text"}}`, `{"node":"act","bs":{}}`, `{"node":"act"}`, `{"node":"error","bs":{"error":"earlier","lastBindings":{"lastBindings":{}}}}`, `{"node":"error","bs":{"error":7,"lastNode":7}}`}
+	behaviours := []string{"ok", "throw", "throwobj", "null", "scalar", "array", "nan", "fn", "emitfn", "emitnan", "cyclic", "toself", "tonobody", "delperm", "goerr", "goerr7"}
 	msgs := []string{`null`, `7`, `"text"`, `[1,[2]]`, `{}`, `{"to":"a"}`, `{"to":7,"do":"ok"}`, `{"to":["a"],"do":"ok"}`, `{"to":"timers","do":"ok"}`, `{"to":"timers","makeTimer":null}`, `{"to":"timers","makeTimer":{"id":7,"in":"never","message":null}}`, `{"to":"http"}`, `{"to":"http","request":7}`, `{"to":"ws"}`,
 		`{"do":{"not":"a string"}}`, `{"do":null}`, strings.Repeat(`{"d":`, 200) + `1` + strings.Repeat(`}`, 200)}
 	for _, b := range behaviours {
@@ -194,7 +199,7 @@ func C07mcrew(c *vh.Ctx) {
 	c.Bound("mcrew_states", len(states))
 	c.Bound("mcrew_messages", len(msgs))
 	c.Bound("mcrew_controls", len(ctls))
-	c.Rule("(mcrew host) a machine is added and messages are submitted as lines of Service.Listener's text protocol: every combination of a specification file (three that work - one with parameter defaults, one with an action-error node - and files that are broken YAML, name an unknown interpreter, hold a null node and a null branch, hold an unparsable pattern, are empty, hold a scalar, are missing), a machine state (with / without / with null bindings, without a node, at an unknown node, at an action node, at the error node, with a structured permanent binding) and one message (every JSON shape, addressed to the machine / to nobody / to the service names with malformed requests, deep nesting, and one per action behaviour: throwing, throwing a hostile object, returning null / a scalar / an array, binding or emitting what cannot be serialised, emitting to itself and to nobody) under every control setting (absent, null, limits 0 / -1 / 1 / 2), with and without the host's -v flag; in the thorough tier also every pair of messages for the working specifications. Each session ends with read-crew, get-spec, one ordinary message, remove, read-crew. Oracle: no panic (trap; a worker that dies is attributed to the case in flight), the service comes to rest, the listener answers every line with one readable line and does not give up.")
+	c.Rule("(mcrew host) a machine is added and messages are submitted as lines of Service.Listener's text protocol: every combination of a specification file (four that work - one with parameter defaults, one with an action-error node of its own, one that names the error node as its action-error node; each with a branch of its own to the error node - and files that are broken YAML, name an unknown interpreter, hold a null node and a null branch, hold an unparsable pattern, are empty, hold a scalar, are missing), a machine state (with / without / with null bindings, without a node, at an unknown node, at an action node, at the error node, with a structured permanent binding) and one message (every JSON shape, addressed to the machine / to nobody / to the service names with malformed requests, deep nesting, and one per action behaviour: throwing, throwing a hostile object, returning null / a scalar / an array, binding or emitting what cannot be serialised, emitting to itself and to nobody) under every control setting (absent, null, limits 0 / -1 / 1 / 2), with and without the host's -v flag; in the thorough tier also every pair of messages for the working specifications. Each session ends with read-crew, get-spec, one ordinary message, remove, read-crew. Oracle: no panic (trap; a worker that dies is attributed to the case in flight), the service comes to rest, the listener answers every line with one readable line and does not give up.")
 	var idx uint64
 	for _, sp := range specs {
 		for _, st := range states {
@@ -214,7 +219,7 @@ func C07mcrew(c *vh.Ctx) {
 		}
 	}
 	if !c.Quick() {
-		for _, sp := range []string{"actor", "params", "handled"} {
+		for _, sp := range []string{"actor", "params", "handled", "selferr"} {
 			for _, st := range []string{`{"node":"start","bs":{}}`, `{"node":"start"}`, `{"node":"start","bs":{"k!":1}}`} {
 				for _, m1 := range msgs {
 					for _, m2 := range msgs {
